@@ -427,6 +427,7 @@ def run(ctx):
         ctx.run_shards(regex_shard, [(rk, lo, hi, ctx.tier) for lo, hi in runner.shards(nre, 32)] + [(rk, "anchored", 0, ctx.tier)])
         ctx.run_shards(malformed_shard, [rk])
         ctx.run_shards(escape_shard, [rk])
+    _pairhist.run(ctx, __name__)
     ctx.part.sample({"macro": "[0, 1, 2].exists_one(v, 1 / v > 0)", "index": "[7, 8][-1]", "map": '{"a": 10, "a": 20}["a"]', "string": '"é😀".contains("😀")', "regex": '"abab".matches("(a|b)*$")'})
     ctx.rule = ("every list of length <= 4 over small alphabets (int, string, bool, uint, nested) x every macro x every predicate/body of its type; every index in the int64 boundary set and around the list bounds; "
                 "every map of <= 2 entries per key alphabet (duplicates, every order) x lookup / in / select / has with present and absent keys; every string of length <= 3 over {a, b, e-acute, emoji} x every fragment; "
@@ -435,8 +436,27 @@ def run(ctx):
     ctx.assumptions = ["heterogeneous lists, cross-type keys and uint/double indexes are outside 'well-typed' and not enumerated", "regex fragment without backreferences, look-around or laziness"]
 
 
+# ---- pair histories (mc/pairhist.py): a term alone and after every other term in the same process --------------
+PH_EXPECTED = {'"ab".matches("^a")': ("V", "bool", True), '"ba".matches("^a")': ("V", "bool", False), '"ba".matches("a")': ("V", "bool", True), '"ba".matches("a$")': ("V", "bool", True),
+               '"ab".matches("a$")': ("V", "bool", False), '"ba".matches("^a|a")': ("V", "bool", True), '"ab".matches("(")': ("E",), '"1".matches("\\\\d")': ("V", "bool", True),
+               "[1, 2, 3][0]": ("V", "int", 1), "[4, 5, 6][0]": ("V", "int", 4), "[1, 2, 3][-1]": ("E",), "[1, 2, 3][3]": ("E",), '{"a": 1}["a"]': ("V", "int", 1), '{"a": 2}["a"]': ("V", "int", 2),
+               '{"a": 1}["b"]': ("E",), '{"a": 1, "b": 2}.b': ("V", "int", 2), '"abc".contains("b")': ("V", "bool", True), '"abc".startsWith("b")': ("V", "bool", False),
+               '"abc".endsWith("c")': ("V", "bool", True), 'size("é😀")': ("V", "int", 2), "size([1, 2])": ("V", "int", 2), "1 in [1, 2]": ("V", "bool", True), "3 in [1, 2]": ("V", "bool", False),
+               '"a" in {"a": 1}': ("V", "bool", True), '"b" in {"a": 1}': ("V", "bool", False), "[1, 2].exists(x, x > 1)": ("V", "bool", True), "[1, 2].all(x, x > 1)": ("V", "bool", False),
+               "[1, 2].exists_one(x, x > 0)": ("V", "bool", False), "[0, 1].exists(x, 1 / x == 1)": ("V", "bool", True), "[1, 0].all(x, 1 / x == 2)": ("V", "bool", False),
+               "[1, 2, 3].filter(x, [1, 3].exists(y, y == x)) == [1, 3]": ("V", "bool", True), "[1, 2, 3].map(x, [10, 20].map(y, x + y)) == [[11, 21], [12, 22], [13, 23]]": ("V", "bool", True),
+               "[1, 2].map(x, x + 1) == [2, 3]": ("V", "bool", True), "[3, 4].map(x, x + 1) == [4, 5]": ("V", "bool", True), "[1, 2].map(y, y + 1) == [2, 3]": ("V", "bool", True),
+               "[[1], [2]].map(x, x.map(x, x + 1)) == [[2], [3]]": ("V", "bool", True), '"ab" + "c" == "abc"': ("V", "bool", True), "[1] + [2] == [1, 2]": ("V", "bool", True)}
+from .. import pairhist as _pairhist  # noqa: E402
+
+_pairhist.install(globals(), list(PH_EXPECTED), PH_EXPECTED)
+
+
 def replay(w):
     wit = w["witness"]
+    if wit.get("space") == "pairhist":
+        from .. import pairhist
+        return pairhist.replay(w)
     o = celrun.evaluate(wit["runner"], wit["expr"]) if " with l=" not in wit["expr"] and ".matches(" not in wit["expr"][:0] else None
     if o is None:
         print("bound-variable witness; re-run ./check C09:", wit)
